@@ -19,6 +19,9 @@ CLAIMS = {
  "C04": ("model_checking",
    "Parse (generic Parser[int] without/with comments+comfort+keywords) and value.New().Generate are executed on N symbolic bytes ranging over all 256 values each (N<=2 quick, <=3 thorough; unicode classes as range-set formulas), on valid programs with one (thorough: two) symbolic byte overwritten/inserted at every position, on every truncation, and on concrete deep-nesting/unterminated inputs: every path ends with AST xor error, no panic escapes, every path stays within the step budget (termination).",
    "inputs longer than the bound, stack exhaustion by deep nesting and the 64 KiB end of the quantifier are outside the claim; 'linear-ish time' is checked only as a step budget of 3M SSA instructions on these short inputs"),
+ "C09": ("model_checking",
+   "Histories of 2 (thorough 3) operations over a pool of live handles: every operation (append, append twice, set, reverse, + on either side, top, skip, map, order, first as partial consumption, eval; for maps put, put twice, replace, +, eval, map, accept) is a one-operation generated function applied to a chosen existing handle; a purely functional model of symbolic values says what each handle must contain; after the history (and in a second mode after every step) every handle is observed through the public API (ToSlice, Size, Get, Iter): size, elements/keys and values must equal the model for EVERY element value (symbolic 64-bit ints). Enumerated by sym.Choice: operations, parent of each step, representation of the host-supplied parent (literal with 0..3 spare capacity in its backing array, lazily produced, produced by append), observation mode. Plus 9 programs binding lists/maps to names (constant-folded, lazily produced, ordered) whose three evaluations are compared with the reference evaluator.",
+   "list length 2 at creation, history length bound, key pool of 4; spec-level capacities beyond the real runtime's growth policy are not explored (the engine uses the runtime's own append growth for 16-byte elements)"),
  "C12": ("model_checking",
    "Quiescence monitor of the engine's deterministic scheduler: after Parse/Generate/Eval returned, all goroutines are run to completion; a goroutine that stays blocked or is still running after 2M steps is a leak. Inputs: every way parsing can stop (N<=1/2 symbolic bytes, all truncations of 4 programs, byte mutations) and 10 pipelines with early-stopping consumers/failing elements over an effectively unbounded source with a symbolic argument. Counterexamples are confirmed natively by goroutine counts after a grace period.",
    "one call per path (accumulation over thousands of calls follows from one leaked goroutine per call); schedules: the deterministic baton schedule only; known finding: merge producers of the read-only iterator dependency"),
